@@ -144,6 +144,20 @@ class Inliner:
                     for f in facts.fns.values():
                         if f.f.get("impl_trait") == "core::clone::Clone" and f.name == "clone" and (f.f.get("impl_self") or {}).get("adt") == hadt:
                             return f, None
+        # trait call on a type parameter of a generic function being inlined, instantiated at the call site
+        if tr and st is not None and st.get("k") == "param" and self_subst is not None and st.get("s") in (self_subst.get("_tp") or {}):
+            conc = self_subst["_tp"][st["s"]]
+            name = callee["def"].rsplit("::", 1)[1]
+            if conc.get("adt"):
+                for f in facts.fns.values():
+                    if f.f.get("impl_trait") == tr and f.name == name:
+                        isf = f.f.get("impl_self") or {}
+                        if isf.get("adt") == conc.get("adt") and isf.get("peel", 0) == conc.get("peel", 0):
+                            return f, None
+                d = facts.fn(callee["def"])
+                if d is not None:
+                    return d, dict(conc, _tp=self_subst["_tp"])
+            return None, None
         # Self-typed trait call inside a default method being inlined
         if tr and st is not None and st.get("k") == "param" and st.get("s") == "Self" and self_subst is not None:
             name = callee["def"].rsplit("::", 1)[1]
@@ -189,9 +203,22 @@ class Inliner:
         prov = [(fn.path, i, ()) for i in range(len(blocks))]
         work = [(i, (fn.path,), None) for i in range(len(blocks))]
         # worklist of (block index, chain, self_subst)
-        while work:
+        deferred = []      # calls through fn pointers, looked at once everything else is in place
+        while work or deferred:
+            if not work:
+                todo, deferred = deferred, []
+                for (b, chain, self_subst) in todo:
+                    for nb in self._devirtualise(b, locals_, blocks):
+                        prov.append((prov[b][0], prov[b][1], prov[b][2]))
+                        work.append((nb, chain, self_subst))
+                continue
             b, chain, self_subst = work.pop()
             t = blocks[b]["term"]
+            if t["k"] == "call" and t.get("callee") is None and not t.get("_devirt") and t["fnop"].get("k") in ("copy", "move") \
+                    and (self._op_ty(t["fnop"], locals_) or {}).get("k") == "fnptr":
+                t["_devirt"] = True
+                deferred.append((b, chain, self_subst))
+                continue
             if t["k"] == "drop" and not t.get("glue_only"):
                 nb = self._expand_local_drop(b, t, locals_, blocks)
                 if nb is not None:
@@ -220,6 +247,8 @@ class Inliner:
                 for rb in self._rework:
                     work.append((rb, chain, self_subst))
                 continue
+            if self._expand_ctor(b, t, callee, blocks):
+                continue
             t["_blk"] = blocks[b]
             t["_blocks"] = blocks
             target_fn, sub, args = self._call_target(t, callee, locals_, self_subst)
@@ -231,7 +260,8 @@ class Inliner:
                     t["_requeued"] = True
                     work.append((b, chain, self_subst))
                     continue
-                self._note_foreign_closure(b, t, callee, locals_, blocks)
+                for nb in self._note_foreign_closure(b, t, callee, locals_, blocks) or []:
+                    prov.append((prov[b][0], prov[b][1], prov[b][2]))
                 continue
             if target_fn.path in self.keep:
                 continue
@@ -245,8 +275,13 @@ class Inliner:
             loff = len(locals_)
             boff = len(blocks)
             new_locals = copy.deepcopy(target_fn.locals)
+            if sub and sub.get("_tp"):
+                self._subst_types(new_locals, sub["_tp"])
             new_blocks = copy.deepcopy(target_fn.blocks)
             tag_promoted(new_blocks, target_fn.path)
+            if sub and sub.get("_tp"):
+                self._subst_assoc_consts(new_blocks, sub["_tp"])
+                self._subst_types(new_blocks, sub["_tp"])
             for nb in new_blocks:
                 _shift_block(nb, loff, boff)
             span = {k: t.get(k) for k in ("file", "line", "exp", "macro")}
@@ -293,6 +328,8 @@ class Inliner:
             for i in range(len(new_blocks)):
                 prov.append((target_fn.path, i, prov[b][2] + (fn_site(prov[b]),)))
                 work.append((boff + i, nchain, sub))
+        for nb in self._resolve_local_pointers(fn.argc, locals_, blocks):
+            prov.append(prov[nb])
         d = {
             "path": fn.path, "kind": fn.kind, "locals": locals_, "blocks": blocks, "argc": fn.argc,
             "file": fn.file, "line": fn.line, "name": fn.name,
@@ -305,6 +342,268 @@ class Inliner:
         out.inlined = True
         out.unexpanded = list(self.lazy_unexpanded[n_unexp0:])   # crate code with effects that library code runs out of sight
         return out
+
+    def _subst_types(self, x, tp):
+        """Type descriptions that are exactly a type parameter H (or `&H` / `&mut H`) instantiated at the call site."""
+        if isinstance(x, list):
+            for i, y in enumerate(x):
+                if isinstance(y, dict) and y.get("k") == "param" and y.get("s") in tp and "hp" in y:
+                    x[i] = copy.deepcopy(tp[y["s"]])
+                else:
+                    self._subst_types(y, tp)
+            return
+        if not isinstance(x, dict):
+            return
+        for k2, v in list(x.items()):
+            if isinstance(v, dict) and "hp" in v and "s" in v:
+                if v.get("k") == "param" and v.get("s") in tp:
+                    x[k2] = copy.deepcopy(tp[v["s"]])
+                elif v.get("k") in ("ref", "refmut") and isinstance(v.get("s"), str) and v["s"].lstrip("&").replace("mut ", "").strip() in tp and not v.get("adt"):
+                    conc = tp[v["s"].lstrip("&").replace("mut ", "").strip()]
+                    if conc.get("adt") and conc.get("peel", 0) == 0:
+                        nv = copy.deepcopy(conc)
+                        nv.update({"s": v["s"].replace(v["s"].lstrip("&").replace("mut ", "").strip(), conc["s"]), "k": v["k"], "peel": 1})
+                        x[k2] = nv
+                else:
+                    self._subst_types(v, tp)
+            else:
+                self._subst_types(v, tp)
+
+    # ------------------------------------------------ associated constants of a type parameter
+    def _subst_assoc_consts(self, blocks, tp):
+        """`<H as Trait>::FLAG` inside a generic helper inlined with H := a concrete type of this crate: the impl's constant."""
+        import re
+
+        def walk(x):
+            if isinstance(x, list):
+                for y in x:
+                    walk(y)
+                return
+            if not isinstance(x, dict):
+                return
+            if x.get("k") == "const" and "int" not in x and isinstance(x.get("desc"), str):
+                m = re.match(r"^<(\w+) as (.+)>::(\w+)$", x["desc"])
+                if m and m.group(1) in tp and tp[m.group(1)].get("s"):
+                    path = "%s::<%s as %s>::%s" % (self.facts.crate, tp[m.group(1)]["s"], m.group(2), m.group(3))
+                    c = self.facts.consts.get(path)
+                    if c is not None and len(c["blocks"]) == 1 and len(c["blocks"][0]["stmts"]) == 1:
+                        st = c["blocks"][0]["stmts"][0]
+                        op = (st.get("rv") or {}).get("op") if (st.get("rv") or {}).get("k") == "use" else None
+                        if st["k"] == "assign" and st["dst"] == {"l": 0, "p": []} and isinstance(op, dict) and op.get("k") == "const" and "int" in op:
+                            x["int"] = op["int"]
+                            x["size"] = op.get("size")
+                            x["desc"] = op.get("desc")
+                return
+            for k2, v in x.items():
+                if k2 in ("ty", "callee", "fn", "targs", "argtys"):
+                    continue
+                walk(v)
+        for blk in blocks:
+            walk(blk["stmts"])
+            walk(blk["term"])
+
+    # ------------------------------------------------ constructors used as functions
+    def _expand_ctor(self, b, t, callee, blocks):
+        """`Enum::Variant(x)` / `Tuple(x)` called as a function (`opt.map(Self::Variant)`): the aggregate itself."""
+        if callee is None or self.facts.fn(callee["def"]) is not None or t.get("target") is None:
+            return False
+        d = callee["def"]
+        adt = self.facts.adts.get(d)
+        rv = None
+        if adt is not None and adt.get("kind") == "Struct":
+            names = [f["name"] for f in adt.get("fields", [])]
+            if len(names) == len(t["args"]) and all(n.isdigit() for n in names):
+                rv = {"k": "agg", "ak": "adt", "name": d, "variant": d.rsplit("::", 1)[-1], "vidx": 0, "fields": names, "ops": copy.deepcopy(t["args"])}
+        elif "::" in d:
+            parent, vname = d.rsplit("::", 1)
+            adt = self.facts.adts.get(parent)
+            if adt is not None and adt.get("kind") == "Enum":
+                for v in adt.get("variants", []):
+                    if v["name"] == vname:
+                        names = [f["name"] for f in adt.get("fields", []) if f["variant"] == vname]
+                        if len(names) == len(t["args"]):
+                            rv = {"k": "agg", "ak": "adt", "name": parent, "variant": vname, "vidx": v["idx"], "fields": names, "ops": copy.deepcopy(t["args"])}
+        if rv is None:
+            return False
+        span = {k: t.get(k) for k in ("file", "line", "exp", "macro")}
+        blocks[b]["stmts"].append({"k": "assign", "dst": copy.deepcopy(t["dst"]), "rv": rv, **span})
+        blocks[b]["term"] = {"k": "goto", "target": t["target"], **span, "adaptor": "ctor"}
+        return True
+
+    # ------------------------------------------------ calls through fn pointers
+    def _devirtualise(self, b, locals_, blocks):
+        """`p(args)` with `p` a fn pointer: every fn item of this crate that is turned into a fn pointer anywhere in the
+        inlined body is a candidate.  The call becomes a switch on which candidate `p` is (decided per path by the
+        interpreter from the value of `p`; all arms when it does not know), each arm a direct call; the fall-through arm
+        keeps the indirect call for pointers that are none of them."""
+        t = blocks[b]["term"]
+        cands = []
+        for blk in blocks:
+            for st in blk["stmts"]:
+                rv = st.get("rv") or {}
+                if st["k"] == "assign" and rv.get("k") == "cast" and str(rv.get("ck", "")).startswith("Coerce:ReifyFnPointer") and rv["op"].get("k") == "const" and "fn" in rv["op"]:
+                    fnj = rv["op"]["fn"]
+                    if self.facts.fn(fnj["def"]) is not None and len((rv["op"].get("ty") or {}).get("fnin") or ()) == len(t["args"]) and fnj["def"] not in [c["def"] for c in cands]:
+                        cands.append(fnj)
+        if not cands:
+            return []
+        span = {k: t.get(k) for k in ("file", "line", "exp", "macro")}
+        new = []
+        targets = []
+        for i, fnj in enumerate(cands):
+            nt = {"k": "call", "callee": copy.deepcopy(fnj), "fnop": {"k": "const", "ty": self.UNK_TY, "desc": fnj["def"], "fn": copy.deepcopy(fnj)},
+                  "args": copy.deepcopy(t["args"]), "argtys": copy.deepcopy(t.get("argtys") or []), "dst": copy.deepcopy(t["dst"]), "target": t["target"], "unwind": t["unwind"], **span}
+            blocks.append({"cleanup": blocks[b]["cleanup"], "stmts": [], "term": nt})
+            targets.append((str(i), len(blocks) - 1))
+            new.append(len(blocks) - 1)
+        blocks.append({"cleanup": blocks[b]["cleanup"], "stmts": [], "term": t})
+        new.append(len(blocks) - 1)
+        blocks[b]["term"] = {"k": "switch", "discr": {"k": "fnid", "op": copy.deepcopy(t["fnop"]), "cands": [c["def"] for c in cands]}, "targets": targets, "otherwise": len(blocks) - 1, **span}
+        return new
+
+    # ------------------------------------------------ pointers to locals
+    def _resolve_local_pointers(self, argc, locals_, blocks):
+        """Accesses through a pointer that provably points at one local of this (inlined) body -- `r = &mut n; *r += 1`, a
+        closure's captured `&mut n` once the closure body has been inlined -- are rewritten into accesses of that local, so
+        that the value domain sees the writes.  A `&mut` to an integer local handed to code that is not inlined makes the
+        local unknown after the call.  Returns, for every block added, the block whose provenance it shares."""
+        n = len(locals_)
+        defs = [[] for _ in range(n)]
+        partial = [False] * n
+        for i in range(1, argc + 1):
+            defs[i].append(("param",))
+        for blk in blocks:
+            for st in blk["stmts"]:
+                if st["k"] == "assign":
+                    d = st["dst"]
+                    if not d["p"]:
+                        defs[d["l"]].append(("rv", st["rv"]))
+                    elif d["p"][0] != "*":
+                        partial[d["l"]] = True
+                elif st["k"] == "setdiscr" and not (st["dst"]["p"] and st["dst"]["p"][0] == "*"):
+                    partial[st["dst"]["l"]] = True
+            t = blk["term"]
+            if t["k"] == "call" and t.get("dst") is not None:
+                d = t["dst"]
+                if not d["p"]:
+                    defs[d["l"]].append(("call",))
+                elif d["p"][0] != "*":
+                    partial[d["l"]] = True
+
+        def only(l):
+            return defs[l][0][1] if len(defs[l]) == 1 and defs[l][0][0] == "rv" and not partial[l] else None
+        memo = {}
+
+        def pt(x, depth=0):
+            """(local pointed at, through a `&mut`?) or None"""
+            if x in memo:
+                return memo[x]
+            memo[x] = None
+            if depth > 12:
+                return None
+            rv = only(x)
+            r = None
+            if rv is not None:
+                k = rv.get("k")
+                if k in ("ref", "addr"):
+                    pl = rv["pl"]
+                    if not pl["p"]:
+                        r = (pl["l"], rv.get("mut") is not False)
+                    elif pl["p"] == ["*"]:
+                        q = pt(pl["l"], depth + 1)
+                        if q is not None:
+                            r = (q[0], q[1] and rv.get("mut") is not False)
+                elif k == "use" and rv["op"].get("k") in ("copy", "move"):
+                    pl = rv["op"]["pl"]
+                    if not pl["p"]:
+                        r = pt(pl["l"], depth + 1)
+                    else:
+                        o = self._agg_field(pl, only, pt, depth)
+                        if o is not None and o.get("k") in ("copy", "move") and not o["pl"]["p"]:
+                            r = pt(o["pl"]["l"], depth + 1)
+            memo[x] = r
+            return r
+        ints = ("int", "bool")
+
+        def is_place(x):
+            return isinstance(x, dict) and "l" in x and isinstance(x.get("p"), list) and isinstance(x["l"], int)
+        changed = [False]
+
+        def rewrite(x):
+            if isinstance(x, list):
+                for y in x:
+                    rewrite(y)
+                return
+            if not isinstance(x, dict):
+                return
+            if is_place(x):
+                if x["p"] and x["p"][0] == "*":
+                    q = pt(x["l"])
+                    if q is not None and (locals_[q[0]].get("ty") or {}).get("k") in ints:
+                        x["l"], x["p"] = q[0], x["p"][1:]
+                        changed[0] = True
+                return
+            for k2, v in x.items():
+                if k2 in ("ty", "callee", "fn", "targs", "argtys", "_blk", "_blocks"):
+                    continue
+                rewrite(v)
+        for blk in blocks:
+            rewrite(blk["stmts"])
+            rewrite(blk["term"])
+        # `next(&mut it)` on a slice iterator held in a local: remember which local (the interpreter advances it in place
+        # when it walks a known constant array)
+        for blk in blocks:
+            t = blk["term"]
+            if t["k"] == "call" and t.get("callee") and t["callee"].get("def") == "core::iter::Iterator::next" and (t["callee"].get("self_ty") or {}).get("adt") in ("core::slice::iter::Iter", "core::slice::Iter") \
+                    and (t["callee"].get("self_ty") or {}).get("peel", 0) == 0 and len(t["args"]) == 1 and t["args"][0].get("k") in ("copy", "move") and not t["args"][0]["pl"]["p"]:
+                q = pt(t["args"][0]["pl"]["l"])
+                if q is not None and q[1]:
+                    t["recv_local"] = q[0]
+        # `&mut n` (n an integer local) handed to code we do not see into
+        added = []
+        for b in range(len(blocks)):
+            t = blocks[b]["term"]
+            if t["k"] != "call" or not isinstance(t.get("target"), int):
+                continue
+            hv = []
+            for a in t.get("args") or []:
+                if a.get("k") in ("copy", "move") and not a["pl"]["p"]:
+                    q = pt(a["pl"]["l"])
+                    if q is not None and q[1] and (locals_[q[0]].get("ty") or {}).get("k") in ints and (locals_[a["pl"]["l"]].get("ty") or {}).get("k") in ("refmut", "ptrmut", "ptr", "rawptr"):
+                        hv.append(q[0])
+            if hv:
+                span = {k: t.get(k) for k in ("file", "line", "exp", "macro")}
+                sts = [{"k": "assign", "dst": {"l": l, "p": []}, "rv": {"k": "havoc", "desc": "&mut@%d" % b}, **span} for l in sorted(set(hv))]
+                blocks.append({"cleanup": blocks[b]["cleanup"], "stmts": sts, "term": {"k": "goto", "target": t["target"], **span}})
+                t["target"] = len(blocks) - 1
+                added.append(b)
+        return added
+
+    @staticmethod
+    def _agg_field(pl, only, pt, depth):
+        """The operand stored in field N of an aggregate (closure environment, tuple) reached by `pl` = `c.N` or `(*e).N`."""
+        proj = pl["p"]
+        f = proj[-1]
+        if not (isinstance(f, dict) and "f" in f):
+            return None
+        base = pl["l"]
+        pre = proj[:-1]
+        while pre:
+            if pre[0] != "*":
+                return None
+            q = pt(base, depth + 1)
+            if q is None:
+                return None
+            base, pre = q[0], pre[1:]
+        rv = only(base)
+        hops = 0
+        while rv is not None and rv.get("k") == "use" and rv["op"].get("k") in ("copy", "move") and not rv["op"]["pl"]["p"] and hops < 8:
+            rv = only(rv["op"]["pl"]["l"])
+            hops += 1
+        if rv is None or rv.get("k") != "agg" or rv.get("ak") not in ("closure", "tuple"):
+            return None
+        ops = rv.get("ops") or []
+        return ops[f["f"]] if f["f"] < len(ops) else None
 
     # ------------------------------------------------ Drop impls of the crate's own types
     HANDLES = ("cactusref::rc::Rc", "cactusref::rc::Weak")
@@ -463,6 +762,92 @@ class Inliner:
         "core::result::Result::<T, E>::map_or_else": ("Result", "Ok", "Err", "call", "call_on_other"),
         "core::option::Option::<T>::or_else": ("Option", "Some", "None", "self", "call0"),
     }
+
+    # conversions between Option and Result: a switch on the discriminant, each arm builds the other type's variant
+    VARIANT_MAPS = {
+        #  callee: ((arg variant idx, arg variant name, takes payload) -> (adt, variant, idx, payload from: "payload" | "arg1" | None)), ...
+        "core::result::Result::<T, E>::ok": ("core::result::Result", (("0", "Ok", ("core::option::Option", "Some", 1, "payload")), ("1", "Err", ("core::option::Option", "None", 0, None)))),
+        "core::result::Result::<T, E>::err": ("core::result::Result", (("0", "Ok", ("core::option::Option", "None", 0, None)), ("1", "Err", ("core::option::Option", "Some", 1, "payload")))),
+        "core::option::Option::<T>::ok_or": ("core::option::Option", (("1", "Some", ("core::result::Result", "Ok", 0, "payload")), ("0", "None", ("core::result::Result", "Err", 1, "arg1")))),
+    }
+
+    def _expand_variant_map(self, b, t, callee, locals_, blocks):
+        adt, arms = self.VARIANT_MAPS[callee["def"]]
+        args = t["args"]
+        if not args or args[0]["k"] not in ("move", "copy"):
+            return None
+        # a payload that is thrown away must have no drop glue (else its destructor runs inside the callee)
+        targs = callee.get("targs") or []
+        for vi, vname, (_a, _v, _i, src) in arms:
+            if src is None:
+                which = {"Ok": 0, "Err": 1, "Some": 0}.get(vname)
+                if which is not None and which < len(targs) and (targs[which].get("dp", 0) or targs[which].get("nd")):
+                    return None
+        if any(src == "arg1" for _vi, _vn, (_a, _v, _i, src) in arms) and len(args) > 1:
+            aty = self._op_ty(args[1], locals_) or {}
+            if aty.get("dp", 0) or aty.get("nd"):
+                return None
+        span = {k: t.get(k) for k in ("file", "line", "exp", "macro")}
+        cleanup = blocks[b]["cleanup"]
+        dl = len(locals_)
+        locals_.append({"ty": {"s": "isize", "k": "int", "hp": False, "nd": False, "dp": 0}, "name": None})
+        goto = {"k": "goto", "target": t["target"], **span} if t["target"] is not None else {"k": "unreachable", **span}
+        blocks[b]["stmts"].append({"k": "assign", "dst": {"l": dl, "p": []}, "rv": {"k": "discr", "pl": copy.deepcopy(args[0]["pl"])}, **span})
+        new, targets = [], []
+        for vi, vname, (radt, rvar, ridx, src) in arms:
+            ops = []
+            if src == "payload":
+                pl = copy.deepcopy(args[0]["pl"])
+                pl["p"] = pl["p"] + [{"dc": vname, "vi": int(vi)}, {"f": 0, "n": "0", "of": adt}]
+                ops = [{"k": "move", "pl": pl}]
+            elif src == "arg1":
+                ops = [copy.deepcopy(args[1])]
+            rv = {"k": "agg", "ak": "adt", "name": radt, "variant": rvar, "vidx": ridx, "fields": ["0"] if ops else [], "ops": ops}
+            blocks.append({"cleanup": cleanup, "stmts": [{"k": "assign", "dst": copy.deepcopy(t["dst"]), "rv": rv, **span}], "term": dict(goto)})
+            new.append(len(blocks) - 1)
+            targets.append([vi, len(blocks) - 1])
+        blocks.append({"cleanup": cleanup, "stmts": [], "term": {"k": "unreachable", **span}})
+        new.append(len(blocks) - 1)
+        blocks[b]["term"] = {"k": "switch", "discr": {"k": "move", "pl": {"l": dl, "p": []}}, "targets": targets, "otherwise": len(blocks) - 1, **span, "adaptor": "variant-map"}
+        return new
+
+    def _expand_result_try(self, b, t, callee, locals_, blocks):
+        """`res?` on a Result: `branch` maps Ok(v) -> Continue(v), Err(e) -> Break(Err(e)); `from_residual(Err(e))` is
+        Err(e) when the error types agree (`From::from` is the identity then)."""
+        args = t["args"]
+        if len(args) != 1 or args[0]["k"] not in ("move", "copy") or t.get("target") is None:
+            return None
+        span = {k: t.get(k) for k in ("file", "line", "exp", "macro")}
+        cleanup = blocks[b]["cleanup"]
+        goto = {"k": "goto", "target": t["target"], **span}
+        RES, CF = "core::result::Result", "core::ops::ControlFlow"
+
+        def payload(vname, vi):
+            pl = copy.deepcopy(args[0]["pl"])
+            pl["p"] = pl["p"] + [{"dc": vname, "vi": vi}, {"f": 0, "n": "0", "of": RES}]
+            return {"k": "move", "pl": pl}
+        if callee["def"].endswith("from_residual"):
+            targs = callee.get("targs") or []
+            if len(targs) != 2 or len(targs[0].get("args") or ()) != 2 or len(targs[1].get("args") or ()) != 2 or targs[0]["args"][1].get("s") != targs[1]["args"][1].get("s"):
+                return None
+            rv = {"k": "agg", "ak": "adt", "name": RES, "variant": "Err", "vidx": 1, "fields": ["0"], "ops": [payload("Err", 1)]}
+            blocks[b]["stmts"].append({"k": "assign", "dst": copy.deepcopy(t["dst"]), "rv": rv, **span})
+            blocks[b]["term"] = dict(goto, adaptor="from_residual")
+            return []
+        dl = len(locals_)
+        locals_.append({"ty": {"s": "isize", "k": "int", "hp": False, "nd": False, "dp": 0}, "name": None})
+        tl = len(locals_)
+        locals_.append({"ty": dict(self.UNK_TY), "name": None})
+        blocks[b]["stmts"].append({"k": "assign", "dst": {"l": dl, "p": []}, "rv": {"k": "discr", "pl": copy.deepcopy(args[0]["pl"])}, **span})
+        nb0 = len(blocks)
+        cont = {"k": "agg", "ak": "adt", "name": CF, "variant": "Continue", "vidx": 0, "fields": ["0"], "ops": [payload("Ok", 0)]}
+        blocks.append({"cleanup": cleanup, "stmts": [{"k": "assign", "dst": copy.deepcopy(t["dst"]), "rv": cont, **span}], "term": dict(goto)})
+        err = {"k": "agg", "ak": "adt", "name": RES, "variant": "Err", "vidx": 1, "fields": ["0"], "ops": [payload("Err", 1)]}
+        brk = {"k": "agg", "ak": "adt", "name": CF, "variant": "Break", "vidx": 1, "fields": ["0"], "ops": [{"k": "move", "pl": {"l": tl, "p": []}}]}
+        blocks.append({"cleanup": cleanup, "stmts": [{"k": "assign", "dst": {"l": tl, "p": []}, "rv": err, **span}, {"k": "assign", "dst": copy.deepcopy(t["dst"]), "rv": brk, **span}], "term": dict(goto)})
+        blocks.append({"cleanup": cleanup, "stmts": [], "term": {"k": "unreachable", **span}})
+        blocks[b]["term"] = {"k": "switch", "discr": {"k": "move", "pl": {"l": dl, "p": []}}, "targets": [["0", nb0], ["1", nb0 + 1]], "otherwise": nb0 + 2, **span, "adaptor": "result-branch"}
+        return [nb0, nb0 + 1, nb0 + 2]
 
     VARIANT_TESTS = {
         "core::option::Option::<T>::is_some": "1", "core::option::Option::<T>::is_none": "0",
@@ -656,7 +1041,7 @@ class Inliner:
         goto = {"k": "goto", "target": t["target"], **span} if t["target"] is not None else {"k": "unreachable", **span}
         if callee["def"] == "core::iter::IntoIterator::into_iter":
             is_array = st.get("k") in ("array", "slice") and str(st.get("s", "")).startswith("[") and ";" in str(st.get("s", "")) and st.get("peel", 0) == 0
-            if not is_array or len(args) != 1 or args[0]["k"] not in ("move", "copy"):
+            if not is_array or len(args) != 1 or args[0]["k"] not in ("move", "copy", "const"):
                 return None
             blocks[b]["stmts"].append({"k": "assign", "dst": copy.deepcopy(t["dst"]), "rv": {"k": "use", "op": copy.deepcopy(args[0])}, **span})
             blocks[b]["term"] = dict(goto, adaptor="array-into_iter")
@@ -949,6 +1334,15 @@ class Inliner:
                 blocks[b]["term"] = {"k": "drop", "pl": copy.deepcopy(t["args"][0]["pl"]), "ty": aty, "target": t["target"], "unwind": t["unwind"], **span, "via_mem_drop": True}
                 self._rework.append(b)
                 return []
+        if callee is not None and callee["def"] in ("core::ops::Try::branch", "core::ops::FromResidual::from_residual") and (callee.get("self_ty") or {}).get("adt") == "core::result::Result" \
+                and (callee.get("self_ty") or {}).get("peel", 0) == 0:
+            r = self._expand_result_try(b, t, callee, locals_, blocks)
+            if r is not None:
+                return r
+        if callee is not None and callee["def"] in self.VARIANT_MAPS:
+            r = self._expand_variant_map(b, t, callee, locals_, blocks)
+            if r is not None:
+                return r
         if callee is not None and callee["def"] in self.VARIANT_TESTS:
             r = self._expand_variant_test(b, t, callee, locals_, blocks)
             if r is not None:
@@ -1212,6 +1606,7 @@ class Inliner:
         if len(ds) != 1 or ds[0]["rv"].get("k") != "agg" or ds[0]["rv"].get("ak") != "closure":
             return False
         ops = ds[0]["rv"]["ops"]
+        tallied = []
         for i in acc:
             if i >= len(ops) or ops[i].get("k") not in ("copy", "move") or ops[i]["pl"]["p"]:
                 return False
@@ -1221,7 +1616,8 @@ class Inliner:
             tgt = locals_[rd[0]["rv"]["pl"]["l"]]
             if ("&mut " + str((tgt.get("ty") or {}).get("s"))) not in self.INT_REFMUT:
                 return False
-        return True
+            tallied.append(rd[0]["rv"]["pl"]["l"])
+        return tallied
 
     def _writes_own_fields(self, fn):
         """Does this method assign to a field of `*self` (other than through calls)?"""
@@ -1540,8 +1936,15 @@ class Inliner:
             return
         for a in t["args"]:
             ty = self._op_ty(a, locals_)
-            if ty is not None and ty.get("k") in ("closure", "fndef") and self.facts.fn(ty.get("closure") or ty.get("fndef") or "") is not None and self._effectful(ty) \
-                    and not self._only_tallies(ty, a, locals_, blocks):
+            if ty is not None and ty.get("k") in ("closure", "fndef") and self.facts.fn(ty.get("closure") or ty.get("fndef") or "") is not None and self._effectful(ty):
+                tallied = self._only_tallies(ty, a, locals_, blocks)
+                if tallied and isinstance(t.get("target"), int):
+                    # the library code ran the closure some number of times: the tallies hold values unknown to us
+                    span = {k: t.get(k) for k in ("file", "line", "exp", "macro")}
+                    hv = [{"k": "assign", "dst": {"l": l, "p": []}, "rv": {"k": "havoc", "desc": "tally@%d %s" % (b, m)}, **span} for l in tallied]
+                    blocks.append({"cleanup": blocks[b]["cleanup"], "stmts": hv, "term": {"k": "goto", "target": t["target"], **span}})
+                    t["target"] = len(blocks) - 1
+                    return [len(blocks) - 1]
                 self.lazy_unexpanded.append((self._cur, b, "`%s` is given a closure with side effects" % d))
                 return
 
@@ -1741,6 +2144,13 @@ class Inliner:
                             dl["ty"] = sty
                             changed = True
                         continue
+                    if s["rv"]["k"] == "cast" and str(s["rv"].get("ck", "")).startswith(("Coerce:ClosureFnPointer", "Coerce:ReifyFnPointer")) and dl["ty"].get("k") == "fnptr":
+                        # `let f: fn(..) = |..| ..;` / `= some_fn;`: a fn pointer local with one definition is that callable
+                        sty = self._op_ty(s["rv"]["op"], locals_)
+                        if sty is not None and sty.get("k") in ("closure", "fndef") and self._single_def(s["dst"]["l"], blocks) is s["rv"]:
+                            dl["ty"] = sty
+                            changed = True
+                        continue
                     if s["rv"]["k"] != "use":
                         continue
                     if dl["ty"].get("k") != "param":
@@ -1791,6 +2201,19 @@ class Inliner:
             if callee.get("local") or callee.get("crate") == self.facts.crate:
                 self.unresolved.append((callee["full"], self._cur))
             return None, None, None
+        # a generic function instantiated with concrete types: remember what its type parameters stand for
+        names, targs = f.f.get("tparams") or [], callee.get("targs") or []
+        if names and len(names) == len(targs):
+            outer = (self_subst or {}).get("_tp") or {}
+            tp = {}
+            for n_, ty in zip(names, targs):
+                if ty.get("k") == "param":
+                    if ty.get("s") in outer:
+                        tp[n_] = outer[ty["s"]]
+                elif ty.get("adt"):
+                    tp[n_] = ty
+            if tp:
+                sub = dict(sub or {}, _tp=tp)
         return f, sub, t["args"]
 
     def _single_def(self, l, blocks):
